@@ -74,15 +74,74 @@ def esStep (fs : List Filter) (cap : Nat) (s : ES) : Act → ES
 
 def esRun (fs : List Filter) (cap : Nat) (sched : List Act) : ES := sched.foldl (esStep fs cap) {}
 
-/-- `HandleEvent` on a stream whose `Stop()` already ran (`close(es.eventCh)`): the agent's
-`eventLoop` snapshots the handler list before `DeregisterEventHandler` takes effect, so this
-order is reachable.  A send on a closed channel panics, also inside a `select` with `default`. -/
-inductive HOut
-  | ok | panic
+/-! ### HandleEvent versus Stop
+
+The agent's `eventLoop` snapshots the handler list, releases the lock and calls
+`HandleEvent` on every copied handler, so `HandleEvent` can run after (or concurrently
+with) `Stop()`.  How the two methods are serialised is extracted from the source
+(`Gen/EventStreamStop.lean`).  When both hold `es.stopLock` each call is one atomic action
+(mutex region), and any concurrent execution is a sequence of calls. -/
+
+/-- Facts extracted from `eventStream.HandleEvent` / `eventStream.Stop`. -/
+structure StopShape where
+  /-- HandleEvent: `es.stopLock.Lock(); defer Unlock()` before every send on `eventCh` -/
+  handleLock : Bool
+  /-- HandleEvent: `if es.stopped { return }` under the lock, before every send -/
+  handleTest : Bool
+  /-- Stop: `es.stopLock.Lock(); defer Unlock()` before the close -/
+  stopLock : Bool
+  /-- Stop: `if es.stopped { return }` under the lock, before the close -/
+  stopTest : Bool
+  /-- Stop: `es.stopped = true` under the lock, before the close -/
+  stopSetsBeforeClose : Bool
+  /-- sends on / closes of `eventCh` in any other function of the file -/
+  otherChannelOps : Nat
   deriving DecidableEq, Repr, Inhabited
 
-def handleEventOn (fs : List Filter) (stopped : Bool) (e : Ev) : HOut :=
-  if wanted fs e then (if stopped then .panic else .ok) else .ok
+def StopShape.ok (sh : StopShape) : Bool :=
+  sh.handleLock && sh.handleTest && sh.stopLock && sh.stopTest && sh.stopSetsBeforeClose && sh.otherChannelOps == 0
+
+/-- the repaired code -/
+def goodShape : StopShape :=
+  { handleLock := true, handleTest := true, stopLock := true, stopTest := true, stopSetsBeforeClose := true, otherChannelOps := 0 }
+
+/-- the code before the repair: HandleEvent just sends, Stop just closes -/
+def oldShape : StopShape :=
+  { handleLock := false, handleTest := false, stopLock := false, stopTest := false, stopSetsBeforeClose := false, otherChannelOps := 0 }
+
+inductive Call
+  | handle (e : Ev)
+  | stop
+  deriving DecidableEq, Repr, Inhabited
+
+structure SS where
+  /-- `es.stopped` -/
+  stopped : Bool := false
+  /-- `eventCh` is closed -/
+  closed : Bool := false
+  buf : List Ev := []
+  /-- a send on, or a close of, the closed channel happened: the process panics -/
+  panicked : Bool := false
+  /-- successful `close(eventCh)` executions -/
+  closes : Nat := 0
+  deriving DecidableEq, Repr, Inhabited
+
+/-- One whole call (an atomic action when the method holds the lock; for a shape without
+locks this is merely the sequential execution of the call). -/
+def callStep (sh : StopShape) (fs : List Filter) (cap : Nat) (s : SS) : Call → SS
+  | .handle e =>
+    if !wanted fs e then s
+    else if sh.handleTest && s.stopped then s
+    else if s.closed then { s with panicked := true }          -- send on closed channel
+    else if s.buf.length < cap then { s with buf := s.buf ++ [e] }
+    else s                                                       -- `default:` dropped
+  | .stop =>
+    if sh.stopTest && s.stopped then s
+    else if s.closed then { s with stopped := s.stopped || sh.stopSetsBeforeClose, panicked := true }  -- close of closed channel
+    else { s with stopped := s.stopped || sh.stopSetsBeforeClose, closed := true, closes := s.closes + 1 }
+
+def callRun (sh : StopShape) (fs : List Filter) (cap : Nat) (s : SS) (calls : List Call) : SS :=
+  calls.foldl (callStep sh fs cap) s
 
 def arrivals : List Act → List Ev
   | [] => []
